@@ -9,7 +9,7 @@
    step f s is its closed form on skeletons; guard f s excludes the (request, state) pairs on
    which the CODE fails (one conjunct per known finding, see Refuted.v). *)
 From Coq Require Import List Bool Arith.
-From PV Require Import Base.PyData C08.Model C08.ProofsGraph C08.ProofsStep C08.ProofsStep2 C08.ProofsDomain C08.Proofs.
+From PV Require Import Base.PyData C08.Model C08.ProofsGraph C08.ProofsStep C08.ProofsStep2 C08.ProofsDomain C08.Proofs C08.ProofsRefine.
 
 (* The detectors are exact on every skeleton graph: for ANY number of transit and peripheral
    compartments, any absorption/elimination/lag combination (no validity hypothesis needed), each
@@ -89,3 +89,28 @@ Theorem feature_request_sound_partial :
 Proof.
   intros f s Ht Hp Hf He Hv Hg. apply refines_sound; [apply setter_refines_bounded|..]; assumption.
 Qed.
+
+(* setter_refines, ALL transit and peripheral counts, for nine of the request forms: the graph part
+   of the four elimination setters, add/remove_lag_time, add/remove_bioavailability and
+   add_peripheral_compartment, run on build s, lands on a graph equivalent (up to node order and
+   rate renaming) to build (step f s) — for EVERY skeleton s (no validity, guard or bound needed),
+   by induction-free structural reasoning on the seq-indexed node and edge lists. *)
+Definition refines_proved_for_all_counts (f : req) : bool :=
+  match f with
+  | ElFO | ElZO | ElMM | ElMix | LagOn | LagOff | BioOn | BioOff | PerAdd => true
+  | _ => false
+  end.
+
+Theorem setter_refines :
+  forall (f : req) (s : sk), refines_proved_for_all_counts f = true -> refines f s = true.
+Proof.
+  intros f s H. destruct f; try discriminate H;
+    try (apply refines_elim; reflexivity); try (apply refines_label; reflexivity).
+  apply refines_peradd.
+Qed.
+
+(* ... hence for these requests feature_request_sound holds with no `refines` hypothesis and no bound *)
+Theorem feature_request_sound_all_counts :
+  forall (f : req) (s : sk), refines_proved_for_all_counts f = true ->
+    valid s = true -> guard f s = true -> sound_on_graph f s.
+Proof. intros f s H Hv Hg. apply refines_sound; [apply setter_refines; exact H | exact Hv | exact Hg]. Qed.
